@@ -20,4 +20,11 @@ pub mod verif_access {
     }
     pub fn execute_ok(u: &mut Uci, cmd: &UciCommand) -> bool { u.execute(cmd).is_ok() }
     pub fn game(u: &Uci) -> &Game { &u.game }
+    pub fn options(u: &Uci) -> &EngineOptions { &u.options }
+    pub fn set_hash_size(u: &mut Uci, mb: usize) { u.options.hash_size = mb; }
+    /// `Some` = a `go` was issued earlier (the handle is only cleared by `stop`), `None` = no search yet / stopped
+    pub fn set_control(u: &mut Uci, earlier_go: bool) {
+        u.control = if earlier_go { Some(crate::engine::search::time_control::verif_access::mk_control()) } else { None };
+    }
+    pub fn table_slots(u: &Uci) -> usize { crate::engine::transposition_table::verif_access::len(&u.persistent_state.lock().unwrap().tt) }
 }
